@@ -56,7 +56,7 @@ structure State where
   maxStack   : Nat          -- d->maxuse_stack  (non-ASAN statistics)
   maxArena   : Nat          -- d->maxuse_arena
   frames     : List Frame
-  deriving Repr
+  deriving Repr, DecidableEq
 
 /-- state after `mj_makeData` (`mj_makeRawData` + `mj_resetData`). -/
 def State.init : State :=
